@@ -290,7 +290,16 @@ def build_and_run(crate, ctx, label):
         t0 = time.time()
         for attempt in range(6):
             n = crate.write(excl_mods, excl_vecs)
-            p = subprocess.run(["cargo", "build", "--offline", "-q", "--message-format=short"], cwd=GEN, env=vlib.cargo_env(),
+            cargo_cmd = ["cargo", "build", "--offline", "-q", "--message-format=short"]
+            bin_path = os.path.join(GEN, "target", "debug", "c14gen")
+            if os.path.abspath(vlib.REPO) != "/repo":
+                # development aid (seeded changes in a scratch worktree): build against that checkout, own target dir
+                alt = os.path.abspath(vlib.REPO)
+                tdir = os.path.join(vlib.WORK, "target-alt-gen")
+                cargo_cmd += ["--config", 'paths=["%s","%s"]' % (os.path.join(alt, "humphrey-json"), os.path.join(alt, "humphrey-json-derive")),
+                              "--target-dir", tdir]
+                bin_path = os.path.join(tdir, "debug", "c14gen")
+            p = subprocess.run(cargo_cmd, cwd=GEN, env=vlib.cargo_env(),
                                stdout=subprocess.PIPE, stderr=subprocess.STDOUT, text=True, errors="replace")
             if p.returncode == 0:
                 break
@@ -321,7 +330,7 @@ def build_and_run(crate, ctx, label):
             raise vlib.ToolError("generated crate still does not build after excluding %d modules / %d literals"
                                  % (len(excl_mods), len(excl_vecs)))
         build_s = time.time() - t0
-        r = vlib.run_bin(os.path.join(GEN, "target", "debug", "c14gen"), [], timeout=900)
+        r = vlib.run_bin(bin_path, [], timeout=900)
         if r.returncode != 0:
             raise vlib.ToolError("generated program failed rc=%s: %s" % (r.returncode, r.stderr[-1500:]))
         res = {}
